@@ -423,7 +423,7 @@ class Harness:
                          for st_ in dsl.iter_stmts(blk) if st_[0] == 'par')
             first = None
             best = None
-            real_inv = collections.Counter(l['inv'] for l in rctx.log)
+            real_inv = collections.Counter((l['inv'], l['args']) for l in rctx.log)
             # second round: the reuse of a record may also be rejected because a concurrent task claimed a key inside it
             for implied in (False, True):
                 for order in itertools.permutations(range(ntasks)):
@@ -436,7 +436,10 @@ class Harness:
                         first = (mctx, mb, mret)
                     if _outcome_key(mret) == _outcome_key(rret):
                         # several references may explain the outcome: take the one that claims the fewest cache hits
-                        extra = sum((collections.Counter(l['inv'] for l in mctx.log) - real_inv).values())
+                        # (invocations are compared with their arguments: two racers may request one path with
+                        # different arguments, and in a build that fails anyway the outcome does not tell who won)
+                        minv = collections.Counter((l['inv'], l['args']) for l in mctx.log)
+                        extra = sum((minv - real_inv).values()) + 1000 * sum((real_inv - minv).values())
                         if best is None or extra < best[0]:
                             best = (extra, (mctx, mb, mret), 'par_order_%s%s' % (''.join(map(str, order)), '_implied' if implied else ''))
                 if best is not None and best[0] == 0:
